@@ -439,8 +439,8 @@ func expandWord(vr expand.Variable, word string) fieldsRes {
 type repJSON struct {
 	P    bool     `json:"p,omitempty"`
 	List []string `json:"list"`
-	Idx  []int    `json:"idx"`  // meaningful when !Nil
-	Nil  bool     `json:"nil"`  // Indexes == nil
+	Idx  []int    `json:"idx"` // meaningful when !Nil
+	Nil  bool     `json:"nil"` // Indexes == nil
 }
 
 func rep(list []string, idx []int) repJSON {
@@ -751,8 +751,8 @@ func show(r *rand.Rand, nm string, cur ref) (stmt, want string) {
 type shellCase struct {
 	Src   string `json:"src"`
 	Ctx   string `json:"ctx"`
-	Want  string `json:"want"`  // what the reference map predicts (hex)
-	Got   string `json:"got"`   // interp output (hex)
+	Want  string `json:"want"` // what the reference map predicts (hex)
+	Got   string `json:"got"`  // interp output (hex)
 	Nops  int    `json:"nops"`
 	Class string `json:"class"` // known-finding class of the input ("" = none)
 }
